@@ -273,22 +273,41 @@ Definition dumped_env (l : list (tyvar * option te)) : abi_env :=
   mk_env (fun v => match assoc_tv l v with Some (Some e) => Some (match e with Any => [] | _ => [e] end) | _ => None end)
          (fun v => true).
 
+(* the hypotheses of abi_rows_in_slot, decided on the dumped classes: spans of the slot's own class start inside
+   the slot, spans typed by a sized word end inside it; a sized-word class is at most 256 bits wide *)
+Definition top_hyp (cls : list (tyvar * te)) (v0 : tyvar) : bool :=
+  match assoc_tv cls v0 with
+  | Some (Packed ts _) =>
+      forallb (fun s => (s_off s <? 256) &&
+                        match assoc_tv cls (s_typ s) with
+                        | Some (Word (Some w) _) => s_off s + w <=? 256
+                        | _ => true
+                        end) ts
+  | Some (Word (Some w) _) => w <=? 256
+  | _ => true
+  end.
+
 Definition slot_code (layout : list entry) (s : N * tyvar * list (tyvar * option te)) : N :=
   let '(index, v0, dump) := s in
   let cls := some_classes dump in
   let rows := filter (fun e => e_index e =? index) layout in
-  let model := abi_type_for abi_nested_add (dumped_env dump) (S (length dump)) v0 in
+  let model := abi_type_for abi_nested_add abi_nested_fit (dumped_env dump) (S (length dump)) v0 in
   let agrees := match model with
                 | Ok a => list_eqb entry_eqb (fold_left layout_add (rows_of index a) []) rows
                 | _ => false
                 end in
   if forallb entry_in_slot rows then (if agrees then 0 else 5)
-  else if known_nested_spans cls v0 then 62          (* finding C12:K-nested *)
+  else if abi_nested_fit then
+    (* repaired text: nesting can no longer push a row out of the slot; a row beyond it is a violation, and it
+       contradicts abi_rows_in_slot when the slot's own class satisfies that theorem's hypotheses *)
+    (if top_hyp cls v0 then 77
+     else if negb (forallb (fun e => e_offset e <? 256) rows) then 74 else 75)
+  else if known_nested_spans cls v0 then 62          (* pinned text only: the class of former finding C12:K-nested *)
   else if wd_hyp cls v0 then 76                       (* contradicts abi_packed_offsets: model/impl mismatch *)
   else if negb (forallb (fun e => e_offset e <? 256) rows) then 74 else 75.
 
 Definition worst (a b : N) : N :=
-  let rank (x : N) := match x with 74 | 75 | 76 => 4 | 5 => 3 | 62 => 2 | 0 => 0 | _ => 1 end in
+  let rank (x : N) := match x with 74 | 75 | 76 | 77 => 4 | 5 => 3 | 62 => 2 | 0 => 0 | _ => 1 end in
   if rank b <? rank a then a else b.
 
 Definition c12_class_code (k : kcase) : N :=
